@@ -31,8 +31,21 @@ TEXT_CELL = 'E2'      # holds "hello"
 ASSIGN_VALUES = [1, 0, None, 5]   # None = leave blank (no override)
 
 
+# expressions whose evaluation fails in different ways (the product signals them with different exception classes or
+# error values): division by zero, an error-valued cell, a date function of a text, aggregates over ranges of different
+# sizes, a lookup column outside the table, arithmetic on a text, an index outside the area, a text that is no number
+FAIL_CALLS = [['call', 'YEAR', [['ref', TEXT_CELL]]],
+              ['call', 'SUMIFS', [['area', 'A1:A2'], ['area', 'A1:A3'], ['num', '1']]],
+              ['call', 'COUNTIFS', [['area', 'A1:A2'], ['num', '1'], ['area', 'A1:A3'], ['num', '1']]],
+              ['call', 'VLOOKUP', [['num', '1'], ['area', 'A1:B2'], ['num', '5'], ['bool', False]]],
+              ['un', '-', ['ref', TEXT_CELL]],
+              ['call', 'ROUND', [['ref', TEXT_CELL], ['num', '1']]],
+              ['call', 'INDEX', [['area', 'A1:B2'], ['num', '5'], ['num', '5']]],
+              ['call', 'VALUE', [['ref', TEXT_CELL]]]]
+
+
 def is_fail(node):
-    return (node[0] == 'bin' and node[1] == '/' and node[3] == ['num', '0']) or node == ['ref', ERR_CELL]
+    return (node[0] == 'bin' and node[1] == '/' and node[3] == ['num', '0']) or node == ['ref', ERR_CELL] or node in FAIL_CALLS
 
 
 def nest_depth(ast):
@@ -82,7 +95,21 @@ def f_left(e, args):
     return t[:n]
 
 
-EXTRA = {'ROUND': f_round, 'LEFT': f_left}
+def _fails(code):
+    def f(e, args):
+        raise F._ErrSignal(F.Err(code))
+    return f
+
+
+def f_round_or_fail(e, args):
+    if args[0] == ['ref', TEXT_CELL]:
+        raise F._ErrSignal(F.Err('#VALUE!'))
+    return f_round(e, args)
+
+
+# the failing call shapes of FAIL_CALLS are the only uses of these functions in generated nests
+EXTRA = {'ROUND': f_round_or_fail, 'LEFT': f_left, 'YEAR': _fails('#VALUE!'), 'SUMIFS': _fails('#VALUE!'), 'COUNTIFS': _fails('#VALUE!'),
+         'VLOOKUP': _fails('#REF!'), 'INDEX': _fails('#REF!'), 'VALUE': _fails('#VALUE!')}
 
 
 def make_env(assign, base_cells):
@@ -100,11 +127,18 @@ def make_env(assign, base_cells):
     return envf
 
 
+class FailAware(F.Evaluator):
+    def ev(self, node):
+        if node in FAIL_CALLS:
+            raise F._ErrSignal(F.Err('#VALUE!'))
+        return super().ev(node)
+
+
 def taken_info(ast, envf):
     """-> (reference value or Err, set of node ids evaluated) using an instrumented evaluator."""
     seen = []
 
-    class Ev(F.Evaluator):
+    class Ev(FailAware):
         def ev(self, node):
             seen.append(id(node))
             return super().ev(node)
@@ -121,7 +155,7 @@ def untaken_differs(ast, envf, value, seen):
                     if any(is_fail(d) for d in F.walk(a)):
                         return True
                     try:
-                        v = F.Evaluator(envf, EXTRA).value(a)
+                        v = FailAware(envf, EXTRA).value(a)
                     except F.OutOfDomain:
                         return True
                     if isinstance(v, F.Err) or type(v) is not type(value) or v != value:
@@ -227,7 +261,7 @@ def strategy():
                      st.tuples(st.sampled_from(['>', '=', '<>', '>=']), ref, st.sampled_from(['0', '1'])).map(
                          lambda t: ['bin', t[0], t[1], ['num', t[2]]]),
                      st.sampled_from([['num', '0'], ['num', '1'], ['num', '2'], ['bool', True], ['bool', False]]))
-    fail = st.sampled_from([['bin', '/', ['num', '1'], ['num', '0']], ['ref', ERR_CELL]])
+    fail = st.sampled_from([['bin', '/', ['num', '1'], ['num', '0']], ['ref', ERR_CELL]] * 2 + FAIL_CALLS)
     number = st.integers(2, 99).map(lambda n: ['num', str(n)])
     leafval = st.one_of(number, number, number, fail, ref, st.sampled_from([['str', 'yes'], ['str', 'no']]))
 
@@ -277,7 +311,7 @@ NSHARD = 16
 
 
 def plan(tier):
-    n = 30 if tier == 'quick' else 600
+    n = 150 if tier == 'quick' else 1500
     return [{'kind': 'hyp', 'shard': i, 'examples': n} for i in range(NSHARD)]
 
 
